@@ -242,3 +242,8 @@ func init() {
 		},
 	})
 }
+
+func init() {
+	c := fw.Lookup("C17")
+	c.Phases = append(c.Phases, htmlExtraPhases(evalC17Order, false)...)
+}
